@@ -9,6 +9,3 @@ pub assume_specification<T>[ bool::then_some ](b: bool, t: T) -> (r: Option<T>)
 pub open spec fn is_scalar(x: u32) -> bool { x < 0xD800 || (0xE000 <= x && x <= 0x10FFFF) }
 pub assume_specification[ char::from_u32 ](x: u32) -> (r: Option<char>)
 	ensures r.is_some() == is_scalar(x);
-// R21 targets (VERIFIED helpers): std::cmp::max / min on usize
-pub fn usize_max(a: usize, b: usize) -> (r: usize) ensures r == (if a >= b { a } else { b }) { if a >= b { a } else { b } }
-pub fn usize_min(a: usize, b: usize) -> (r: usize) ensures r == (if a <= b { a } else { b }) { if a <= b { a } else { b } }
